@@ -165,6 +165,43 @@ fn cases() -> Vec<Case> {
                     });
                 }
             }
+            if k >= 2 {
+                let nots: Vec<String> = (1..=k).map(|i| format!("not X{}", i)).collect();
+                let nv: Vec<i8> = vec.iter().map(|x| t_not(*x)).collect();
+                out.push(Case {
+                    form: "or-of-negations".into(),
+                    yaml: rule_yaml(&xs, &nots.join(" or ")),
+                    doc: d.clone(),
+                    expect: bits(t_or(&nv)),
+                    vector: vec.clone(),
+                });
+                out.push(Case {
+                    form: "and-of-negations".into(),
+                    yaml: rule_yaml(&xs, &nots.join(" and ")),
+                    doc: d.clone(),
+                    expect: bits(t_and(&nv)),
+                    vector: vec.clone(),
+                });
+                // the same with key-level negation in one sequence / mapping
+                let nentries: Vec<String> = (1..=k).map(|i| format!("\"not(f{})\": v", i)).collect();
+                out.push(Case {
+                    form: "sequence-of-negated-keys".into(),
+                    yaml: rule_yaml(
+                        &[("A".into(), format!("[{}]", nentries.iter().map(|e| format!("{{{}}}", e)).collect::<Vec<_>>().join(", ")))],
+                        "A",
+                    ),
+                    doc: d.clone(),
+                    expect: bits(t_or(&nv)),
+                    vector: vec.clone(),
+                });
+                out.push(Case {
+                    form: "mapping-of-negated-keys".into(),
+                    yaml: rule_yaml(&[("A".into(), format!("{{{}}}", nentries.join(", ")))], "A"),
+                    doc: d.clone(),
+                    expect: bits(t_and(&nv)),
+                    vector: vec.clone(),
+                });
+            }
             if k == 1 {
                 out.push(Case {
                     form: "not".into(),
@@ -351,6 +388,15 @@ pub fn run(tier: Tier) -> i32 {
         if !quant && !c.form.contains("not-not") && !c.form.contains("not-chain") {
             if let Ok((r, _)) = eng::optimise_with(&rule, 0b0011, &[]) {
                 variants.push(("coalesced+shaken (group form)", r));
+            }
+        }
+        if c.form.contains("negat") {
+            // a negation is never missing, so no reordering can change these tables: they must
+            // hold in every optimised form as well
+            for sw in [0b0010u8, 0b1111, 0b1010, 0b0111] {
+                if let Ok((r, _)) = eng::optimise_with(&rule, sw, &[]) {
+                    variants.push(("optimised form of a connective over negations", r));
+                }
             }
         }
         for (vn, r) in variants {
